@@ -49,6 +49,10 @@ async fn one_config(a: Args, idx: usize, proto: Proto, transport: Transport, per
         let mut rng2 = Rng::derive(a.seed, 0xC01B, idx as u64);
         Deploy::new(Cfg::random(&mut rng2, proto, n_users), transport, false, 2, &dir)
     };
+    // WebSocket paths as both programs accept them: the README's "/ws", no path at all, one with a query, one with a trailing slash
+    if matches!(transport, Transport::Ws | Transport::Wss) {
+        d.ws_path = [None, Some(String::new()), Some("/ws?ed=2048".to_string()), Some("/a/b/".to_string())][(idx / 2 + a.seed as usize) % 4].clone();
+    }
     d.extra_server_entries.push(d2.server_entry());
     let tag = format!("c01-{idx}");
     let dd = d.clone();
